@@ -35,9 +35,9 @@ ASSUMPTIONS = [
 REAL = REAL_ALL
 STUB = STUB_ALL + ["process boundaries are os.fork() of a pristine zygote rather than exec of a new interpreter"]
 
-HEADER_POOL = ["h{}", "h {}", 'say "hi" {}', '"q{}"', "two\nlines {}", " lead{}", "x;y{}", "p|q{}", "t`{}", "üml{}", "'s{}'", "tab\t{}", ", name{}", "city{} ;", "| x{} |", "` tick{}", "a{},  "]
+HEADER_POOL = ["h{}", "h {}", 'say "hi" {}', '"q{}"', "two\nlines {}", " lead{}", "x;y{}", "p|q{}", "t`{}", "üml{}", "'s{}'", "tab\t{}", ", name{}", "city{} ;", "| x{} |", "` tick{}", "a{},  ", "form\x0cfeed{}", "ls\u2028sep{}", "nel\x85x{}", "fs\x1cgs\x1d{}"]
 NASTY_CLASS = {0: "plain", 1: "space", 2: "inner_quote", 3: "leading_quote", 4: "newline", 5: "lead_space", 6: "semicolon", 7: "pipe", 8: "backtick", 9: "nonascii", 10: "single_quote", 11: "tab",
-               12: "delim_then_space", 13: "space_then_delim", 14: "delim_space_both", 15: "backtick_space", 16: "comma_spaces"}
+               12: "delim_then_space", 13: "space_then_delim", 14: "delim_space_both", 15: "backtick_space", 16: "comma_spaces", 17: "form_feed", 18: "line_separator", 19: "next_line", 20: "file_separator"}
 
 
 LIT_COMPS = ['@ws = "a b"', 'print("line  $.csvpath.line_number of a b")', '#1 == "ann lee"', 'not(#1 == "ann  lee")', '@w2 = concat("x y", " ", #1)', 'in(#1, "ann lee|bob  ray")']
@@ -114,6 +114,14 @@ def generate(rng, i, tier):
                 "policy": rng.choice([["collect"], ["collect", "fail", "print"], ["stop", "collect"], ["print"]]) if kind == "direct" and rng.random() < 0.4 else None,
             }
         )
+    if rng.random() < 0.1:
+        # an external function, known only through the '[functions] imports' file of ONE job's own Config - and, before
+        # that job, a csvpath that names a function nobody knows (its parse fails; that must not decide anything for later jobs)
+        fi = rng.randrange(nfiles)
+        typo = {"kind": rng.choice(["direct", "via", "named"]), "entry": "collect", "file": fi, "member": {"id": None, "scan": "*", "comps": ["nosuchfunction()"]}, "policy": None}
+        ext = {"kind": "direct", "entry": rng.choice(["collect", "fast_forward"]), "file": fi, "member": {"id": None, "scan": "*", "comps": ['extprobe("x")', "@n = count()"]}, "policy": ["collect", "print"], "imports": True}
+        at = rng.randint(0, len(jobs))
+        jobs[at:at] = [typo, ext] if rng.random() < 0.7 else [ext]
     for j in range(len(jobs)):
         if rng.random() < 0.1:
             # the job reads the file with ANOTHER dialect than the one it was written with (legal: the records then
@@ -212,6 +220,8 @@ def run_job(job, jn, dialects):
                     if job.get("policy"):
                         cfg = Config()
                         cfg.csvpath_errors_policy = list(job["policy"])
+                        if job.get("imports"):
+                            cfg.function_imports = os.path.abspath(os.path.join("config", "functions.imports"))
                     cp = CsvPath(delimiter=delim, quotechar=quote, config=cfg)
                 else:
                     cp = CsvPaths(delimiter=delim, quotechar=quote).csvpath()
@@ -301,6 +311,8 @@ def _warm(root, seed, nfiles, dialects):
 
 
 def _populate(world, sc):
+    with open(os.path.join(world.root, "config", "functions.imports"), "w", encoding="utf-8") as f:
+        f.write("from verifsim.extfuncs import SimProbe as extprobe\n")
     for fi, f in enumerate(sc["files"]):
         d = f.get("dialect", [",", '"'])
         world.write_csv(f"src/f{fi}.csv", f["rows"], delimiter=d[0], quotechar=d[1])
@@ -439,6 +451,7 @@ def execute(sc):
         out.probe("two jobs that differ only by blanks inside a string literal", any(ws_sibling(a["member"]) == b["member"] for a in jobs for b in jobs if a is not b))
         out.probe("file replaced between two jobs over the same path", False)
         out.probe("cache with half of an entry missing", False)
+        out.probe("external function loaded from a job's own imports file after a csvpath with an unknown function", any(j.get("imports") for j in jobs) and any(j["member"]["comps"] == ["nosuchfunction()"] for j in jobs))
         out.probe("one file read with two dialects in one process", any(a["file"] == b["file"] and (a.get("read_as") or None) != (b.get("read_as") or None) for a in jobs for b in jobs))
         out.probe("exact repeat of a job", any(jobs[a] == jobs[b] for a in range(len(jobs)) for b in range(a + 1, len(jobs))))
         out.extra["header_classes"] = classes
